@@ -9,6 +9,8 @@ import sys, os, subprocess
 sys.path.insert(0, os.getcwd())
 import check
 from propdefs import PROPS
+READY = set(open('props/READY').read().split())
+PROPS = {k: v for k, v in PROPS.items() if k in READY}
 for pid, cfg in PROPS.items():
     if cfg.get("facts"):
         ok, msg = check.regenerate_facts(pid, [])
@@ -20,6 +22,8 @@ import sys, os, subprocess
 sys.path.insert(0, os.getcwd())
 import check
 from propdefs import PROPS
+READY = set(open('props/READY').read().split())
+PROPS = {k: v for k, v in PROPS.items() if k in READY}
 from concurrent.futures import ThreadPoolExecutor
 targets = []
 for pid, cfg in PROPS.items():
